@@ -435,7 +435,10 @@ class HTTPChannel(wasyncore.dispatcher):
         except ClientDisconnected:
             self.logger.info("Client disconnected while serving %s" % task.request.path)
             task.close_on_finish = True
-        except Exception:
+        except BaseException:
+            # BaseException, not Exception: a SystemExit (or the like) raised
+            # by the application must not leave the connection with a request
+            # that is never answered and never removed from self.requests
             self.logger.exception("Exception while serving %s" % task.request.path)
 
             if not task.wrote_header:
